@@ -162,7 +162,7 @@ fn plan_for(id: &str, tier: Tier) -> Plan {
         g(Family::Dist, full_cfg(Family::Dist), 1, 4, 1, "all single mappings of G-dist"),
       ];
       if q {
-        gens.push(g(Family::Gen, cfg_with(Family::Gen, &red_f, &[0, 1], true, Some(vec![0, 2, 3, 5, 6, 8])), 2, 3, 1, "all ordered pairs of reduced G-gen (finals A,CAPSLOCK,LEFTSHIFT; repeat Normal/Disabled; 6 of 10 outputs)"));
+        gens.push(g(Family::Gen, cfg_with(Family::Gen, &red_f, &[0, 1], true, Some(vec![0, 2, 3, 5, 7, 8])), 2, 3, 1, "all ordered pairs of reduced G-gen (finals A,CAPSLOCK,LEFTSHIFT; repeat Normal/Disabled; outputs [],[LEFTSHIFT,X],[A],[LEFTSHIFT,A],[LEFTSHIFT],[X,Y])"));
       } else {
         gens.push(g(Family::Gen, full_cfg(Family::Gen), 2, 3, 1, "all ordered pairs of G-gen"));
         gens.push(g(Family::Dist, full_cfg(Family::Dist), 2, 3, 1, "all ordered pairs of G-dist"));
@@ -220,6 +220,29 @@ fn plan_for(id: &str, tier: Tier) -> Plan {
   }
 }
 
+/// Q4: four single-key mappings on four ordinary keys (A, B, J, K), every combination of the G-dist output forms
+/// and of Normal/Disabled (C09: Normal/Special) — interactions that need four mappings in effect one after another.
+pub fn q4_jobs(need: Need, special: bool) -> Vec<Job> {
+  use crate::keys::{Mapping, Repeat};
+  use KeyCode::*;
+  let trig = [A, B, J, K];
+  let dk = [X, Y, Z, W];
+  let mut jobs = vec![];
+  for o in 0..5usize.pow(4) { for r in 0..16usize {
+    let mut ms = vec![]; let (mut oo, mut rr) = (o, r);
+    for q in 0..4 {
+      let to = match oo % 5 { 0 => vec![dk[q]], 1 => vec![LEFTSHIFT, dk[q]], 2 => vec![LEFTCTRL, dk[q]], 3 => vec![], _ => vec![LEFTSHIFT] };
+      let repeat = if rr % 2 == 0 { Repeat::Normal } else if special { Repeat::Special { keys: vec![F24], delay_ms: 100 + q as i32, interval_ms: 10 + q as i32 } } else { Repeat::Disabled };
+      oo /= 5; rr /= 2;
+      ms.push(Mapping { from: vec![trig[q]], to, repeat, absorbing: vec![] });
+    }
+    let layout = Layout { mappings: ms };
+    if !layout_ok(&layout, need) { continue; }
+    jobs.push(Job::Fixed { name: format!("Q4-{}-{}", o, r), layout, alphabet: trig.to_vec(), n: 4, alpha_rule: "the four trigger keys" });
+  } }
+  jobs
+}
+
 pub fn run(ctx: &Ctx) -> Outcome {
   let id = ctx.id.as_str();
   let bit = prop_bit(id);
@@ -233,6 +256,11 @@ pub fn run(ctx: &Ctx) -> Outcome {
     let (js, nshapes) = gen_jobs(gp, plan.need);
     gen_rules.push(json!({"family": format!("{:?}", gp.family), "what": gp.label, "shapes": nshapes, "tuple_size": gp.k, "layouts": js.len(), "bound_keys_held": gp.n, "alphabet": gen_alphabet(gp.n_foreign).iter().map(|k| format!("{}", k)).collect::<Vec<_>>()}));
     jobs.extend(js);
+  }
+  if plan.need != Need::Absorbing {
+    let qj = q4_jobs(plan.need, id == "C09");
+    gen_rules.push(json!({"family": "Q4", "what": "four single-key mappings on A,B,J,K: every combination of 5 output forms ([D],[LEFTSHIFT,D],[LEFTCTRL,D],[],[LEFTSHIFT]) and of two repeat modes per mapping", "layouts": qj.len(), "bound_keys_held": 4, "alphabet": ["A", "B", "J", "K"]}));
+    jobs.extend(qj);
   }
   // big fixed layouts first so that they do not become the tail
   jobs.sort_by_key(|j| match j { Job::Fixed { alphabet, n, .. } => 0usize.wrapping_sub(alphabet.len().pow(*n as u32)), _ => usize::MAX / 2 });
